@@ -415,6 +415,16 @@ def norm_ws(s):
     return re.sub(r'\s+', ' ', s).strip()
 
 
+TIGHT = '{}()[],:;'
+
+
+def norm_tight(s):
+    # anchors are compared with white space collapsed AND dropped next to brackets and separators, on both sides:
+    # `X{a: b}` and `X { a: b }` (rustfmt) are the same text (8.54)
+    # ... and a trailing comma before a closing bracket is dropped (`X{a: b,}` - rustfmt's vertical layout)
+    return re.sub(r',([})\]])', r'\1', re.sub(r' ?([{}()\[\],:;]) ?', r'\1', norm_ws(s)))
+
+
 class FnEmitter:
     def __init__(self, repo, srcfile, fnpath, mode, counts, info, canary=False, heap_fns=(), nocontract=False):
         self.canary = canary
@@ -1131,13 +1141,13 @@ class FnEmitter:
             raise Undecided('loop structure changed in %s: contract expects %d loops, source has %d'
                             % (key, con.expect_loops, len(loops)))
         # loop names:  [name L = loop "header text" #k]   ('?=' makes the loop optional)
-        headers = [norm_ws(text[toks[lp['kw_idx']].start:toks[lp['open_idx']].start]) for lp in loops]
+        headers = [norm_tight(text[toks[lp['kw_idx']].start:toks[lp['open_idx']].start]) for lp in loops]
         aliases = {i: [str(i)] for i in range(len(loops))}
         missing_names = set()
         for sname in list(con.sections) + list(con.opts):
             pass
         for nm, (pat, occ, optional) in con.loopnames.items():
-            hits = [i for i, h in enumerate(headers) if h == norm_ws(pat)]
+            hits = [i for i, h in enumerate(headers) if h == norm_tight(pat)]
             if occ < len(hits):
                 aliases[hits[occ]].append(nm)
             elif optional:
@@ -1326,7 +1336,7 @@ class FnEmitter:
             m = re.match(r'^(before|after|before-stmt)\s+(\d+)\s+"(.*)"$', s)
             if not m:
                 continue
-            where, nth, pat = m.group(1), int(m.group(2)), norm_ws(m.group(3))
+            where, nth, pat = m.group(1), int(m.group(2)), norm_tight(m.group(3))
             body = text[toks[bopen].end:toks[bclose].start]
             # search on whitespace-normalised text, keep offset map
             offs = []
@@ -1342,6 +1352,14 @@ class FnEmitter:
                     normed.append(ch)
                     offs.append(idx)
                     prev_ws = False
+            # ... and drop the blanks next to brackets and separators (as norm_tight does for the pattern)
+            keep = [i for i, ch in enumerate(normed)
+                    if not (ch == ' ' and ((i > 0 and normed[i - 1] in TIGHT) or (i + 1 < len(normed) and normed[i + 1] in TIGHT)))]
+            normed = [normed[i] for i in keep]
+            offs = [offs[i] for i in keep]
+            keep = [i for i, ch in enumerate(normed) if not (ch == ',' and i + 1 < len(normed) and normed[i + 1] in '})]')]
+            normed = [normed[i] for i in keep]
+            offs = [offs[i] for i in keep]
             ns = ''.join(normed)
             pos = -1
             start = 0
